@@ -1417,15 +1417,24 @@ impl<R: std::io::Read> Decoder<R> {
                     .ok_or(Error::TooManySamples)
             })?,
             // if total number of remaining samples isn't known,
-            // treat an EOF error as the end of stream
-            // (this is an uncommon case)
-            None => match FrameHeader::read(crc16_reader.by_ref(), self.blocks.streaminfo()) {
-                Ok(header) => header,
-                Err(Error::Io(err)) if err.kind() == std::io::ErrorKind::UnexpectedEof => {
-                    return Ok(None);
+            // treat the end of data at a frame boundary as the end of stream
+            // (this is an uncommon case);
+            // data that ends anywhere inside a frame is still an error
+            None => {
+                let mut first = [0; 1];
+                loop {
+                    match crc16_reader.read(&mut first) {
+                        Ok(0) => return Ok(None),
+                        Ok(_) => break,
+                        Err(err) if err.kind() == std::io::ErrorKind::Interrupted => continue,
+                        Err(err) => return Err(err.into()),
+                    }
                 }
-                Err(err) => return Err(err),
-            },
+                FrameHeader::read(
+                    &mut first.as_slice().chain(crc16_reader.by_ref()),
+                    self.blocks.streaminfo(),
+                )?
+            }
         };
 
         read_subframes(
